@@ -19,35 +19,48 @@ THEOREM_FILE = "Props/C12.v"
 CHK_MODULE = "Check.Chk_C12"
 CASE_TYPE = "Chk_C12.case"
 CHECK_FN = "Chk_C12.check_case"
-HEADER = "From Ropt Require Import Model.Tracker."
-SHARD_SIZE = 220
+SHARD_SIZE = 290
 PARALLEL = True
 CASE_TIMEOUT = 120
 EXHAUSTIVE = {"quick": True, "thorough": True}
 
 TOL = 1e-10
-RULE = ("exhaustive: every history of <= 2 (quick) / <= 3 (thorough) single-result FINISHED_EVALUATION events over a 22-letter "
+RULE = ("exhaustive: (A) every history of <= 2 (quick) / <= 3 (thorough) single-result FINISHED_EVALUATION events over a 22-letter "
         "alphabet (function result with optimizer-domain objective NaN/1/2/3 or without functions x feasible/violating 2e-10 x "
-        "tracked/other source; gradient result x tracked/other source), each with an identity and a sign-flipping objective "
-        "transform, observed by four trackers (best/last x tolerance None/1e-10) after every event; quick adds a seeded sample of "
-        "length-3 histories; plus sampled histories of <= 40 operations (1-3 results per event, ties, NaN, violations at/below/above "
-        "the tolerance in bound/linear/non-linear arrays, three sources, other event types, events without results or without "
-        "transformed_results, Plan.set resets/replacements, four objective transforms, user-domain violations scaled); plus real "
-        "optimizations (slsqp, l-bfgs-b, nelder-mead, differential_evolution with NaN injections and realization_min_success=0, "
-        "maximisation transform, non-linear constraint) run as several optimizer steps of one plan with trackers on subsets of "
-        "the steps, and through BasicOptimizer.  Non-trivial = some tracker ends up holding a result and at least two results "
-        "were delivered; distinct = distinct case dictionaries.")
+        "tracked/other source; gradient result x tracked/other source), with identity and sign-flipping transform; (B) every batch "
+        "of 2 and of 3 results inside ONE event over {NaN, better, tied, worse, better-but-infeasible, gradient, no-functions} in "
+        "every order, after {nothing, a held result, a NaN delivery}, followed by a probe result, results given as tuple or list; "
+        "(C) held result -> one intermediate operation of every kind (each of the 22 letters, mixed batches, other event types, no "
+        "results, no transformed_results, Plan.set of the held object / of another tracker's object / of a new object / None, nothing) "
+        "-> {better, tie, worse, better-but-infeasible, NaN} -> better, under sign-flipping, positive-affine and negative-affine "
+        "objective transforms; (D) held x -> (y, infeasible z) -> z over objectives one unit in the last place to 1e-9 apart; all observed after every operation by six trackers (best/last x tolerance None/1e-10/0.0).  Quick adds "
+        "a seeded sample of length-3 histories of (A).  Sampled: histories of <= 40 operations (1-4 results per event, ties, NaN, "
+        "violations at/below/above the tolerance in bound/linear/non-linear arrays, three sources, chains of 1-3 nested plans with "
+        "trackers and emitting steps on any of them, other event types, events without results or without transformed_results, "
+        "Plan.set resets / replacements / re-placing a tracker's own or another tracker's result, five objective transforms, "
+        "user-domain violations scaled, tolerances None/0.0/1e-10/0.5, trackers created with defaulted arguments or sources=None).  "
+        "Real runs: plans of 1-3 optimizer steps (slsqp, l-bfgs-b, nelder-mead, differential_evolution serial and parallel = several "
+        "results per event) and evaluator steps (several vectors in one call), with NaN injections, realization_min_success=0, "
+        "maximisation and/or positive scaling of the objective, scaling of the non-linear constraint, trackers on subsets of the "
+        "steps; nested optimizations (trackers on the outer and on the nested plan, the nested plan also run stand-alone first); "
+        "BasicOptimizer (tolerance None/0/positive/defaulted, run twice, aborted through the abort callback) whose reported result is "
+        "compared with the recomputation over the recorded events.  Non-trivial = some tracker ends up holding a result and at least "
+        "two results were delivered; distinct = distinct case dictionaries.")
 ASSUMPTIONS = [
     "a Results object is seen by the tracker only through isinstance(FunctionResults), .functions is None, "
     ".functions.weighted_objective and .constraint_info.{bound,linear,nonlinear}_violation (read back from the real objects by the driver)",
     "object identity of delivered results is represented by their delivery index; every delivered object is distinct",
-    "violations are never NaN (the driver stops with an error if one is); results placed with Plan.set are function results with a finite objective",
+    "violations are never NaN and weighted objectives never infinite (the driver stops with an error if one is); results placed with Plan.set are function results with a finite objective",
+    "Plan.set is outside the property text: its effect is the model's (the placed object is compared through its own objective, or through its optimizer-domain partner when it is the object the tracker chose last); the Python oracle accepts either reading",
+    "an event reaches the handlers of the emitting step's plan and of the chain of parent plans that exists at that moment (the driver knows the nesting it built; Plan.emit_event itself is run for real)",
 ]
 TRUSTED = ["the observers used to record the event stream of real optimizations (OptimizerContext.add_observer, "
-           "BasicOptimizer.set_results_callback) deliver the same tuples the handlers received"]
+           "BasicOptimizer.set_results_callback) deliver the same tuples the handlers received",
+           "the defaults of DefaultTrackerHandler / BasicOptimizer arguments left out by the driver are read from the real signatures (inspect)"]
 
 # ---- alphabets ------------------------------------------------------------------------------------
-EX_HANDLERS = [["best", None, [0]], ["best", TOL, [0]], ["last", None, [0]], ["last", TOL, [0]]]
+EX_HANDLERS = [["best", None, [0]], ["best", TOL, [0]], ["best", 0.0, [0]],
+               ["last", None, [0]], ["last", TOL, [0]], ["last", 0.0, [0]]]
 _FEAS = [[0.0], None, None]
 _INFEAS = [[2e-10], None, None]
 LETTERS = []
@@ -59,18 +72,75 @@ for _src in (0, 1):
     LETTERS.append((_src, ["G"]))
 assert len(LETTERS) == 22
 
-TRANSFORMS = {"id": (1.0, 0.0), "neg": (-1.0, 0.0), "aff": (2.0, 1.0), "negaff": (-0.5, 3.0)}
+# results inside ONE event (a batch): NaN, better, tied (with a held 2), worse, better-but-infeasible, gradient, no functions
+BATCH = [["F", True, float("nan"), _FEAS], ["F", True, 1.0, _FEAS], ["F", True, 2.0, _FEAS], ["F", True, 3.0, _FEAS],
+         ["F", True, 0.0, _INFEAS], ["G"], ["F", False, 0.0, _FEAS]]
+BATCH_PREFIX = [[], [["F", True, 2.0, _FEAS]], [["F", True, float("nan"), _FEAS]]]
+
+TRANSFORMS = {"id": (1.0, 0.0), "neg": (-1.0, 0.0), "aff": (2.0, 1.0), "negaff": (-0.5, 3.0), "pos": (4.0, 0.0)}
 OBJ_POOL = [-2.0, -1.0, -0.5, 0.0, 0.5, 1.0, 1.0, 2.0, 2.0, 3.0, float("nan"), float("nan")]
 VIOL_POOL = [0.0, 0.0, 0.0, 5e-11, 1e-10, 2e-10, 0.25, 0.5, 1.0]
-TOL_POOL = [None, TOL, TOL, 0.0, 0.5]
+TOL_POOL = [None, TOL, TOL, 0.0, 0.0, 0.5]
 SRC_POOL = [[0], [0, 1], [1, 2], [0, 1, 2], []]
 OTHER_TYPES = ["START_EVALUATION", "START_OPTIMIZER_STEP", "FINISHED_OPTIMIZER_STEP", "FINISHED_EVALUATOR_STEP"]
 METHODS = ["slsqp", "l-bfgs-b", "nelder-mead", "differential_evolution"]
+NAN_MARK = 0.4375          # a point whose second coordinate is exactly this value evaluates to NaN (evaluator steps)
+
+
+def _emit(src, specs, has_r=True, has_t=True, etype="FINISHED_EVALUATION", **extra):
+    op = ["emit", etype, src, has_r, has_t, specs]
+    if extra:
+        op.append(extra)
+    return op
 
 
 def _ex_case(seq, transform):
-    ops = [["emit", "FINISHED_EVALUATION", LETTERS[a][0], True, True, [LETTERS[a][1]]] for a in seq]
+    ops = [_emit(LETTERS[a][0], [LETTERS[a][1]]) for a in seq]
     return {"kind": "syn", "transform": transform, "vscale": 1.0, "handlers": EX_HANDLERS, "ops": ops}
+
+
+def _batch_cases(tier):
+    """Every batch of 2 (and 3) results in one event, in every order, after nothing / a held 2 / a NaN delivery,
+    followed by a single 1.5 (improving iff the batch left something worse than 1.5)."""
+    probe = _emit(0, [["F", True, 1.5, _FEAS]])
+    for n, transforms in ((2, ("id", "neg", "aff")), (3, ("neg",) if tier == "quick" else ("id", "neg", "negaff"))):
+        for batch in itertools.product(range(len(BATCH)), repeat=n):
+            for pre in BATCH_PREFIX:
+                for tr in transforms:
+                    ops = [_emit(0, [x]) for x in pre] + [_emit(0, [BATCH[b] for b in batch], list=(batch[0] % 2 == 0)), probe]
+                    yield {"kind": "syn", "transform": tr, "vscale": 1.0, "handlers": EX_HANDLERS, "ops": ops}
+
+
+def _resume_cases(tier):
+    """held 2 -> one intermediate operation of every kind -> {better, tie, worse, better-but-infeasible, NaN} -> better,
+    under transforms that change the weighted objective (the comparison domain matters after every intermediate)."""
+    held = _emit(0, [["F", True, 2.0, _FEAS]])
+    inter = [[_emit(s, [x])] for s, x in LETTERS]
+    inter += [[_emit(0, [["F", True, 3.0, _FEAS], ["G"]])], [_emit(0, [["G"], ["F", True, 2.0, _FEAS]], list=True)],
+              [_emit(0, [["F", True, 3.0, _FEAS]], etype="START_EVALUATION")],
+              [_emit(0, [["F", True, 1.0, _FEAS]], etype="FINISHED_OPTIMIZER_STEP")],
+              [_emit(0, [], has_r=False, has_t=False)], [_emit(0, [["F", True, 3.0, _FEAS]], has_t=False)],
+              [["reput", 0]], [["reput", 3]], [["put", None]], [["put", ["F", True, 2.5, _FEAS]]], []]
+    third = [["F", True, 1.5, _FEAS], ["F", True, 2.0, _FEAS], ["F", True, 3.0, _FEAS], ["F", True, 0.0, _INFEAS],
+             ["F", True, float("nan"), _FEAS]]
+    for tr in (("neg", "aff", "negaff") if tier == "quick" else ("id", "neg", "aff", "negaff", "pos")):
+        for mid in inter:
+            for y in third:
+                ops = [held] + mid + [_emit(0, [y]), _emit(0, [["F", True, 1.0, _FEAS]])]
+                yield {"kind": "syn", "transform": tr, "vscale": 1.0, "handlers": EX_HANDLERS, "ops": ops}
+
+
+NEAR = [1.0, 1.0 + 2.0 ** -52, 1.0 - 2.0 ** -53, 1.0 + 2.0 ** -40, 1.0 - 2.0 ** -30]
+
+
+def _near_tie_cases():
+    """held x -> y -> z for objectives that differ by one unit in the last place up to 1e-9: 'lowest' has no tolerance."""
+    for tr in ("id", "neg"):
+        for x, y in itertools.product(NEAR, repeat=2):
+            for z in (NEAR[2], NEAR[4]):
+                ops = [_emit(0, [["F", True, x, _FEAS]]), _emit(0, [["F", True, y, _FEAS], ["F", True, z, _INFEAS]]),
+                       _emit(0, [["F", True, z, _FEAS]])]
+                yield {"kind": "syn", "transform": tr, "vscale": 1.0, "handlers": EX_HANDLERS, "ops": ops}
 
 
 def _rand_viol(rng):
@@ -97,8 +167,12 @@ def _rand_item(rng, wide):
 
 def _rand_history(rng, maxlen):
     wide = rng.random() < 0.15
-    handlers = [[rng.choice(["best", "best", "last"]), rng.choice(TOL_POOL), rng.choice(SRC_POOL)] for _ in range(4)]
-    handlers[0][0] = "best"
+    nplans = rng.choice([1, 1, 1, 2, 3])
+    handlers = []
+    for k in range(4):
+        what = "best" if k == 0 else rng.choice(["best", "best", "last"])
+        handlers.append([what, rng.choice(TOL_POOL), rng.choice(SRC_POOL), rng.randrange(nplans),
+                         rng.choice(["", "", "d", "n", "dn"])])
     ops = []
     for _ in range(rng.randint(1, maxlen)):
         r = rng.random()
@@ -109,66 +183,126 @@ def _rand_history(rng, maxlen):
                 obj = rng.choice([o for o in OBJ_POOL if not math.isnan(o)])
                 ops.append(["put", ["F", True, obj, _rand_viol(rng)]])
             continue
-        items = [_rand_item(rng, wide) for _ in range(rng.choice([1, 1, 2, 2, 3]))]
+        if r < 0.07:
+            ops.append(["reput", rng.randrange(4)])
+            continue
+        items = [_rand_item(rng, wide) for _ in range(rng.choice([1, 1, 2, 2, 3, 4]))]
         src = rng.randrange(3)
-        if r < 0.09:
-            ops.append(["emit", rng.choice(OTHER_TYPES), src, True, True, items])
-        elif r < 0.14:
-            ops.append(["emit", "FINISHED_EVALUATION", src, False, False, []])
-        elif r < 0.20:
-            ops.append(["emit", "FINISHED_EVALUATION", src, True, False, items])
+        extra = {"list": rng.random() < 0.5, "plan": rng.randrange(nplans)}
+        if r < 0.11:
+            ops.append(_emit(src, items, etype=rng.choice(OTHER_TYPES), **extra))
+        elif r < 0.15:
+            ops.append(_emit(src, [], has_r=False, has_t=False, **extra))
+        elif r < 0.21:
+            ops.append(_emit(src, items, has_t=False, **extra))
         else:
-            ops.append(["emit", "FINISHED_EVALUATION", src, True, True, items])
+            ops.append(_emit(src, items, **extra))
     return {"kind": "syn", "transform": rng.choice(list(TRANSFORMS)), "vscale": rng.choice([1.0, 1.0, 4.0, 0.25]),
-            "handlers": handlers, "ops": ops}
+            "plans": nplans, "handlers": handlers, "ops": ops}
 
 
-def _rand_plan(rng, basic):
-    def one_step():
-        method = rng.choice(METHODS)
-        s = {"method": method, "maximize": rng.random() < 0.5,
-             "constraint": method in ("slsqp", "differential_evolution") and rng.random() < 0.7,
-             "con_upper": rng.choice([0.0, 0.125, 0.25]),
-             "target": [rng.choice([0.25, 0.5, 0.75]), rng.choice([-0.5, -0.25, 0.25])],
-             "start": [rng.choice([-0.5, 0.0, 0.5]), rng.choice([-0.5, 0.0, 0.5])],
-             "seed": rng.randrange(1, 1000), "max_functions": rng.choice([6, 10, 16]),
-             "nan_calls": [], "parallel": False}
-        if method == "differential_evolution":
-            s["max_functions"] = rng.choice([20, 40])
-            s["parallel"] = rng.random() < 0.5
-            s["nan_calls"] = sorted({1} | {rng.randrange(2, 12) for _ in range(rng.randint(0, 3))}) if rng.random() < 0.8 else []
-        elif rng.random() < 0.4:
-            s["nan_calls"] = [rng.randrange(2, 6)]
-        return s
+def _one_step(rng, method=None, parallel=None, nested=False):
+    method = method or rng.choice(METHODS)
+    s = {"method": method, "maximize": rng.random() < 0.5,
+         "oscale": rng.choice([1.0, 1.0, 4.0, 0.5]), "cscale": rng.choice([1.0, 1.0, 4.0, 0.25]),
+         "constraint": method in ("slsqp", "differential_evolution") and rng.random() < 0.7,
+         "con_upper": rng.choice([0.0, 0.125, 0.25]),
+         "target": [rng.choice([0.25, 0.5, 0.75]), rng.choice([-0.5, -0.25, 0.25])],
+         "start": [rng.choice([-0.5, 0.0, 0.5]), rng.choice([-0.5, 0.0, 0.5])],
+         "seed": rng.randrange(1, 1000), "max_functions": rng.choice([6, 10, 16]),
+         "nan_calls": [], "parallel": False}
+    if method == "differential_evolution":
+        s["max_functions"] = rng.choice([20, 40])
+        s["parallel"] = (rng.random() < 0.6) if parallel is None else parallel
+        s["nan_calls"] = sorted({1} | {rng.randrange(2, 12) for _ in range(rng.randint(0, 3))}) if rng.random() < 0.8 else []
+    elif rng.random() < 0.4:
+        s["nan_calls"] = [rng.randrange(2, 6)]
+    if nested:
+        s["parallel"] = False
+        s["max_functions"] = rng.choice([3, 4, 5])
+    return s
+
+
+def _eval_step(rng, base=None):
+    """An evaluator step: several vectors in one call -> ONE event with several function results (some NaN, some
+    infeasible, in any position)."""
+    s = dict(base) if base is not None else _one_step(rng, method="slsqp")
+    s["kind"] = "evaluator"
+    s["constraint"] = rng.random() < 0.7
+    s["nan_calls"] = []
+    s["points"] = [[rng.choice([-0.5, 0.0, 0.25, 0.5, 0.75]), rng.choice([-0.5, -0.25, 0.0, 0.25, NAN_MARK, NAN_MARK])]
+                   for _ in range(rng.choice([1, 2, 3, 3, 4]))]
+    return s
+
+
+_FORCED = [("differential_evolution", True), ("slsqp", None), ("differential_evolution", False), ("nelder-mead", None)]
+
+
+def _rand_plan(rng, basic, force=None):
+    method, parallel = force if force is not None else (None, None)
     if basic:
-        return {"kind": "basic", "steps": [one_step()], "handlers": [["best", rng.choice([TOL, TOL, 1e-3, 0.25]), [0]]]}
-    steps = [one_step() for _ in range(rng.choice([1, 2, 2, 3]))]
+        case = {"kind": "basic", "steps": [_one_step(rng, method, parallel)],
+                "handlers": [["best", rng.choice([TOL, TOL, 1e-3, 0.25, 0.0, None]), [0], 0, rng.choice(["", "d"])]],
+                "runs": rng.choice([1, 1, 2]), "abort_after": rng.choice([None, None, None, 2, 5])}
+        if force is not None and parallel:
+            case["steps"][0]["constraint"] = True
+        return case
+    steps = [_one_step(rng, method, parallel)]
+    for _ in range(rng.choice([0, 1, 1, 2])):
+        steps.append(_eval_step(rng) if rng.random() < 0.35 else _one_step(rng))
+    rng.shuffle(steps)
     n = len(steps)
     subsets = [list(c) for k in range(1, n + 1) for c in itertools.combinations(range(n), k)]
     handlers = [["best", TOL, list(range(n))], ["last", TOL, list(range(n))]]
     for _ in range(3):
-        handlers.append([rng.choice(["best", "best", "last"]), rng.choice([None, TOL, 1e-3, 0.25]), rng.choice(subsets)])
+        handlers.append([rng.choice(["best", "best", "last"]), rng.choice([None, TOL, 1e-3, 0.25, 0.0]), rng.choice(subsets)])
     return {"kind": "plan", "steps": steps, "handlers": handlers}
 
 
+def _rand_nested(rng):
+    """Outer optimizer step (source 0, plan 0) whose nested plan (plan 1) runs an inner optimizer step (source 1) per outer
+    evaluation and hands back the result of its own 'best' tracker (handler 0); optionally an evaluator step (source 2) on
+    the outer plan first, and one stand-alone run of the inner plan before it becomes nested."""
+    outer = _one_step(rng, method=rng.choice(["slsqp", "l-bfgs-b", "nelder-mead"]), nested=True)
+    inner = dict(outer, method=rng.choice(["slsqp", "l-bfgs-b", "nelder-mead", "differential_evolution"]),
+                 seed=rng.randrange(1, 1000), max_functions=rng.choice([3, 4, 6]))
+    constrained = ("slsqp", "differential_evolution")
+    outer["constraint"] = inner["constraint"] = (outer["method"] in constrained and inner["method"] in constrained
+                                                 and rng.random() < 0.7)
+    inner["nan_calls"] = [rng.randrange(1, 8)] if rng.random() < 0.5 else []
+    handlers = [["best", rng.choice([TOL, TOL, 0.25, None]), [1], 1]]
+    for _ in range(5):
+        plan = rng.randrange(2)
+        srcs = rng.choice([[0], [1], [0, 1], [0, 1, 2], [1, 2], [2]])
+        handlers.append([rng.choice(["best", "best", "last"]), rng.choice([None, TOL, 1e-3, 0.25, 0.0]), srcs, plan])
+    return {"kind": "nested", "outer": outer, "inner": inner, "pre_inner": rng.random() < 0.3,
+            "evaluator": _eval_step(rng, outer) if rng.random() < 0.5 else None, "handlers": handlers}
+
+
 def gen_cases(tier, rng):
-    maxlen = 2 if tier == "quick" else 3
+    quick = tier == "quick"
+    maxlen = 2 if quick else 3
     light, heavy = [], []
     for L in range(1, maxlen + 1):
         for seq in itertools.product(range(len(LETTERS)), repeat=L):
             for tr in ("id", "neg"):
                 light.append(_ex_case(seq, tr))
-    if tier == "quick":
-        for _ in range(1500):
+    light.extend(_batch_cases(tier))
+    light.extend(_resume_cases(tier))
+    light.extend(_near_tie_cases())
+    if quick:
+        for _ in range(700):
             light.append(_ex_case([rng.randrange(len(LETTERS)) for _ in range(3)], rng.choice(["id", "neg"])))
-    for _ in range(600 if tier == "quick" else 12000):
+    for _ in range(500 if quick else 12000):
         heavy.append(_rand_history(rng, 12))
-    for _ in range(200 if tier == "quick" else 3000):
+    for _ in range(150 if quick else 3000):
         heavy.append(_rand_history(rng, 40))
-    for _ in range(8 if tier == "quick" else 80):
-        heavy.append(_rand_plan(rng, basic=False))
-    for _ in range(8 if tier == "quick" else 80):
-        heavy.append(_rand_plan(rng, basic=True))
+    for k in range(12 if quick else 100):
+        heavy.append(_rand_plan(rng, basic=False, force=_FORCED[k] if k < len(_FORCED) else None))
+    for k in range(14 if quick else 100):
+        heavy.append(_rand_plan(rng, basic=True, force=_FORCED[k] if k < len(_FORCED) else None))
+    for _ in range(8 if quick else 60):
+        heavy.append(_rand_nested(rng))
     # spread the long histories evenly over the shards (the Coq side is bound by the size of the literal)
     rng.shuffle(heavy)
     every = max(1, len(light) // max(1, len(heavy)))
@@ -188,6 +322,8 @@ def _facet(r):
     isfun = isinstance(r, FunctionResults)
     hasf = bool(isfun and r.functions is not None)
     obj = float(r.functions.weighted_objective) if hasf else None
+    if obj is not None and math.isinf(obj):
+        raise RuntimeError("infinite weighted objective: outside the modelled domain")
     viol = None
     if isfun and r.constraint_info is not None:
         ci = r.constraint_info
@@ -277,28 +413,75 @@ def _dummy_config():
     return _CFG
 
 
+def _hspec(h):
+    """(what, tol, sources, plan, flags) of a handler specification (plan and flags are optional)."""
+    what, tol, sources = h[0], h[1], list(h[2])
+    plan = int(h[3]) if len(h) > 3 else 0
+    flags = h[4] if len(h) > 4 else ""
+    return what, tol, sources, plan, flags
+
+
+def _tracker_defaults():
+    """Defaults of DefaultTrackerHandler.__init__ as the real signature states them."""
+    import inspect
+    from ropt.plugins.plan._tracker import DefaultTrackerHandler
+    sig = inspect.signature(DefaultTrackerHandler.__init__).parameters
+    return sig["what"].default, sig["constraint_tolerance"].default
+
+
+def _add_tracker(plan, spec, step_ids):
+    """Add a tracker; with flag 'd' arguments equal to the signature's defaults are left out, with flag 'n' an empty
+    source set is given as None.  Returns (handler id, effective [what, tol, sources, plan])."""
+    what, tol, sources, pidx, flags = _hspec(spec)
+    d_what, d_tol = _tracker_defaults()
+    kw = {"what": what, "constraint_tolerance": tol, "sources": {step_ids[i] for i in sources}}
+    if "d" in flags:
+        if what == d_what:
+            del kw["what"]
+        if tol == d_tol and (tol is None) == (d_tol is None):
+            del kw["constraint_tolerance"]
+    if "n" in flags and not sources:
+        kw["sources"] = None
+    return plan.add_handler("tracker", **kw), [what, tol, sources, pidx]
+
+
 def _run_syn(case):
     import uuid
     from ropt.enums import EventType
     from ropt.plan import Event, OptimizerContext, Plan
-    plan = Plan(OptimizerContext(evaluator=None))
+    ctx = OptimizerContext(evaluator=None)
+    plans = [Plan(ctx)]
+    for _ in range(1, int(case.get("plans", 1))):
+        plans.append(Plan(ctx, parent=plans[-1]))
     srcs = [uuid.uuid4() for _ in range(3)]
-    trackers = [plan.add_handler("tracker", what=w, constraint_tolerance=tol, sources={srcs[i] for i in ss})
-                for w, tol, ss in case["handlers"]]
+    trackers, effective = [], []
+    for spec in case["handlers"]:
+        pidx = _hspec(spec)[3]
+        hid, eff = _add_tracker(plans[pidx], spec, srcs)
+        trackers.append((plans[pidx], hid))
+        effective.append(eff)
     ident = _Ident()
     history, held = [], [[] for _ in trackers]
     for op in case["ops"]:
-        if op[0] == "put":
-            if op[1] is None:
+        if op[0] in ("put", "reput"):
+            if op[0] == "reput":
+                p, t = trackers[op[1] % len(trackers)]
+                value = p.get(t, "results")
+                rec = None if value is None else {"id": ident.of(value), "u": _facet(value)}
+                if rec is not None and (not rec["u"]["hasf"] or math.isnan(rec["u"]["obj"])):
+                    continue        # a 'last' tracker may hold a NaN result: placing it is outside the modelled domain
+            elif op[1] is None:
                 value, rec = None, None
             else:
                 value, _ = _mk_pair(op[1], len(ident.users), "id", 1.0)
                 rec = {"id": ident.add(value, None), "u": _facet(value)}
-            for t in trackers:
-                plan.set(t, "results", value)
+            for p, t in trackers:
+                p.set(t, "results", value)
             history.append(["put", rec])
         else:
-            _, tname, src, has_r, has_t, specs = op
+            _, tname, src, has_r, has_t, specs = op[:6]
+            extra = op[6] if len(op) > 6 else {}
+            pidx = int(extra.get("plan", 0))
             users, partners, items = [], [], []
             for spec in specs:
                 u, t = _mk_pair(spec, len(ident.users), case["transform"], case["vscale"])
@@ -308,33 +491,52 @@ def _run_syn(case):
                 items.append({"id": k, "u": _facet(u), "t": _facet(t) if has_t else None})
             data = {}
             if has_r:
-                data["results"] = tuple(users)
+                seq = list if extra.get("list") else tuple      # the optimizer step hands over a list when it transforms
+                data["results"] = seq(users)
                 if has_t:
                     data["transformed_results"] = tuple(partners)
-            plan.emit_event(Event(event_type=EventType[tname], config=_dummy_config(), source=srcs[src], data=data))
-            history.append(["emit", {"type": tname, "tval": EventType[tname].value, "src": src, "has_results": bool(has_r),
+            plans[pidx].emit_event(Event(event_type=EventType[tname], config=_dummy_config(), source=srcs[src], data=data))
+            history.append(["emit", {"type": tname, "tval": EventType[tname].value, "src": src,
+                                     "path": list(range(pidx, -1, -1)), "has_results": bool(has_r),
                                      "has_transformed": bool(has_r and has_t), "items": items if has_r else []}])
-        for h, t in enumerate(trackers):
-            held[h].append(ident.of(plan.get(t, "results")))
-    return {"history": history, "held": held}
+        for h, (p, t) in enumerate(trackers):
+            held[h].append(ident.of(p.get(t, "results")))
+    return {"history": history, "held": held, "handlers": effective}
 
 
-def _problem(step):
-    """(config dict, transforms, evaluator factory) of one real optimization step."""
+def _problem(step, mask=None):
+    """(config dict, transforms, evaluator) of one real optimization / evaluation step.  The optimizer-domain objective is
+    c * user objective with c = (-1 if maximize else 1) / oscale; optimizer-domain constraints are user constraints / cscale."""
     import numpy as np
     from ropt.evaluator import EvaluatorResult
     from ropt.transforms import OptModelTransforms
-    from ropt.transforms.base import ObjectiveTransform
+    from ropt.transforms.base import NonLinearConstraintTransform, ObjectiveTransform
 
-    class Neg(ObjectiveTransform):
+    c = (-1.0 if step["maximize"] else 1.0) / float(step.get("oscale", 1.0))
+    s = float(step.get("cscale", 1.0))
+
+    class Obj(ObjectiveTransform):
         def to_optimizer(self, objectives):
-            return -objectives
+            return objectives * c
 
         def from_optimizer(self, objectives):
-            return -objectives
+            return objectives / c
 
         def weighted_objective_from_optimizer(self, weighted_objective):
-            return -weighted_objective
+            return weighted_objective / c
+
+    class Con(NonLinearConstraintTransform):
+        def bounds_to_optimizer(self, lower_bounds, upper_bounds):
+            return lower_bounds / s, upper_bounds / s
+
+        def to_optimizer(self, constraints):
+            return constraints / s
+
+        def from_optimizer(self, constraints):
+            return constraints * s
+
+        def nonlinear_constraint_diffs_from_optimizer(self, lower_diffs, upper_diffs):
+            return lower_diffs * s, upper_diffs * s
 
     config = {
         "variables": {"initial_values": step["start"], "lower_bounds": [-1.0, -1.0], "upper_bounds": [1.0, 1.0]},
@@ -342,11 +544,18 @@ def _problem(step):
         "realizations": {"weights": [1.0, 1.0], "realization_min_success": 0},
         "gradient": {"number_of_perturbations": 3, "seed": step["seed"]},
     }
+    if mask is not None:
+        config["variables"]["mask"] = mask
     if step["constraint"]:
         config["nonlinear_constraints"] = {"lower_bounds": [-np.inf], "upper_bounds": [step["con_upper"]]}
     if step["method"] == "differential_evolution":
         config["optimizer"]["options"] = {"seed": step["seed"], "popsize": 3, "maxiter": 4}
-    transforms = OptModelTransforms(objectives=Neg()) if step["maximize"] else None
+    kw = {}
+    if c != 1.0:
+        kw["objectives"] = Obj()
+    if s != 1.0 and step["constraint"]:
+        kw["nonlinear_constraints"] = Con()
+    transforms = OptModelTransforms(**kw) if kw else None
     tx, ty = step["target"]
     nan_calls = set(step["nan_calls"])
     sign = -1.0 if step["maximize"] else 1.0
@@ -359,6 +568,8 @@ def _problem(step):
         for i, r in enumerate(ctx.realizations):
             x = variables[i]
             obj[i, 0] = sign * ((x[0] - tx - 0.125 * r) ** 2 + (x[1] - ty) ** 2)
+            if x[1] == NAN_MARK:
+                obj[i, 0] = np.nan
             con[i, 0] = x[0] + x[1]
         if counter[0] in nan_calls:
             obj[:] = np.nan
@@ -367,9 +578,49 @@ def _problem(step):
     return config, transforms, evaluate
 
 
+class _Recorder:
+    """Observer of every event of a real run: what was delivered (read back from the real objects) and what every
+    tracker holds right after the event."""
+
+    def __init__(self, steps, path_of, trackers):
+        self.steps, self.path_of, self.trackers = steps, path_of, trackers
+        self.ident = _Ident()
+        self.history, self.held = [], [[] for _ in trackers]
+
+    def __call__(self, event):
+        has_r = "results" in event.data
+        has_t = "transformed_results" in event.data
+        items = []
+        if has_r:
+            results = event.data["results"]
+            partners = event.data.get("transformed_results")
+            for k, u in enumerate(results):
+                t = partners[k] if partners is not None else None
+                items.append({"id": self.ident.add(u, t), "u": _facet(u), "t": _facet(t) if t is not None else None})
+        src = self.steps.index(event.source)
+        self.history.append(["emit", {"type": event.event_type.name, "tval": event.event_type.value, "src": src,
+                                      "path": list(self.path_of(src)), "has_results": has_r, "has_transformed": has_t,
+                                      "items": items}])
+        for h, (p, t) in enumerate(self.trackers):
+            self.held[h].append(self.ident.of(p.get(t, "results")))
+
+
+def _run_one_step(plan, sid, step, current, mask=None, variables=None):
+    import numpy as np
+    from ropt.config.enopt import EnOptConfig
+    config, transforms, evaluate = _problem(step, mask)
+    current["eval"] = evaluate
+    kw = {}
+    if step.get("kind") == "evaluator":
+        kw["variables"] = np.array(step["points"], dtype=np.float64)
+    elif variables is not None:
+        kw["variables"] = variables
+    code = plan.run_step(sid, config=EnOptConfig.model_validate(config, context=transforms), transforms=transforms, **kw)
+    return getattr(code, "name", str(code))
+
+
 def _run_plan(case):
     import warnings
-    from ropt.config.enopt import EnOptConfig
     from ropt.enums import EventType
     from ropt.plan import OptimizerContext, Plan
     warnings.simplefilter("ignore")
@@ -380,42 +631,77 @@ def _run_plan(case):
 
     ctx = OptimizerContext(evaluator=evaluator)
     plan = Plan(ctx)
-    steps = [plan.add_step("optimizer") for _ in case["steps"]]
-    trackers = [plan.add_handler("tracker", what=w, constraint_tolerance=tol, sources={steps[i] for i in ss})
-                for w, tol, ss in case["handlers"]]
-    ident = _Ident()
-    history, held = [], [[] for _ in trackers]
-
-    def observe(event):
-        has_r = "results" in event.data
-        has_t = "transformed_results" in event.data
-        items = []
-        if has_r:
-            results = event.data["results"]
-            partners = event.data.get("transformed_results")
-            for k, u in enumerate(results):
-                t = partners[k] if partners is not None else None
-                items.append({"id": ident.add(u, t), "u": _facet(u), "t": _facet(t) if t is not None else None})
-        history.append(["emit", {"type": event.event_type.name, "tval": event.event_type.value,
-                                 "src": steps.index(event.source), "has_results": has_r, "has_transformed": has_t,
-                                 "items": items}])
-        for h, t in enumerate(trackers):
-            held[h].append(ident.of(plan.get(t, "results")))
-
+    steps = [plan.add_step("evaluator" if s.get("kind") == "evaluator" else "optimizer") for s in case["steps"]]
+    trackers, effective = [], []
+    for spec in case["handlers"]:
+        hid, eff = _add_tracker(plan, spec, steps)
+        trackers.append((plan, hid))
+        effective.append(eff)
+    rec = _Recorder(steps, lambda src: [0], trackers)
     for et in EventType:
-        ctx.add_observer(et, observe)
+        ctx.add_observer(et, rec)
     exits = []
     for sid, step in zip(steps, case["steps"]):
-        config, transforms, evaluate = _problem(step)
-        current["eval"], current["counter"] = evaluate, [0]
-        code = plan.run_step(sid, config=EnOptConfig.model_validate(config, context=transforms), transforms=transforms)
-        exits.append(getattr(code, "name", str(code)))
-    return {"history": history, "held": held, "exits": exits}
+        current["counter"] = [0]
+        exits.append(_run_one_step(plan, sid, step, current))
+    return {"history": rec.history, "held": rec.held, "exits": exits, "handlers": effective}
+
+
+def _run_nested(case):
+    import warnings
+    from ropt.enums import EventType
+    from ropt.plan import OptimizerContext, Plan
+    warnings.simplefilter("ignore")
+    current = {"eval": None, "counter": [0]}
+    state = {"nested": False}
+
+    def evaluator(variables, ctx):
+        return current["eval"](variables, ctx, current["counter"])
+
+    ctx = OptimizerContext(evaluator=evaluator)
+    outer, inner = Plan(ctx), Plan(ctx)
+    s_out, s_in, s_ev = outer.add_step("optimizer"), inner.add_step("optimizer"), outer.add_step("evaluator")
+    steps, plans = [s_out, s_in, s_ev], [outer, inner]
+    trackers, effective = [], []
+    for spec in case["handlers"]:
+        pidx = _hspec(spec)[3]
+        hid, eff = _add_tracker(plans[pidx], spec, steps)
+        trackers.append((plans[pidx], hid))
+        effective.append(eff)
+    # Plan.emit_event: the inner plan forwards to its parent once the outer step has adopted it
+    rec = _Recorder(steps, lambda src: ([1, 0] if state["nested"] else [1]) if src == 1 else [0], trackers)
+    for et in EventType:
+        ctx.add_observer(et, rec)
+
+    def inner_function(plan, variables):
+        _run_one_step(plan, s_in, case["inner"], current, mask=[False, True], variables=variables)
+        current["eval"] = _problem(case["outer"], [True, False])[2]
+        return plan.get(trackers[0][1], "results")
+
+    inner.add_function(inner_function)
+    exits = []
+    if case["pre_inner"]:
+        import numpy as np
+        inner.run_function(np.array(case["inner"]["start"], dtype=np.float64))
+    if case["evaluator"] is not None:
+        exits.append(_run_one_step(outer, s_ev, case["evaluator"], current))
+    state["nested"] = True
+    import numpy as np
+    from ropt.config.enopt import EnOptConfig
+    config, transforms, evaluate = _problem(case["outer"], [True, False])
+    current["eval"] = evaluate
+    code = outer.run_step(s_out, config=EnOptConfig.model_validate(config, context=transforms), transforms=transforms,
+                          nested_optimization=inner)
+    exits.append(getattr(code, "name", str(code)))
+    return {"history": rec.history, "held": rec.held, "exits": exits, "handlers": effective}
 
 
 def _run_basic(case):
+    import inspect
     import warnings
+    import numpy as np
     from ropt.config.enopt import EnOptConfig
+    from ropt.enums import EventType
     from ropt.plan import BasicOptimizer
     warnings.simplefilter("ignore")
     step = case["steps"][0]
@@ -423,31 +709,49 @@ def _run_basic(case):
     counter = [0]
     ident = _Ident()
     history = []
+    tval = EventType.FINISHED_EVALUATION.value
 
     def callback(results, transformed):
+        # a BasicOptimizer that is run again registers its observers again: one event may be reported twice
+        if results and any(results[0] is u for u in ident.users):
+            return
         items = []
         for k, u in enumerate(results):
             t = transformed[k] if transformed else None
             items.append({"id": ident.add(u, t), "u": _facet(u), "t": _facet(t) if t is not None else None})
-        history.append(["emit", {"type": "FINISHED_EVALUATION", "tval": 2, "src": 0, "has_results": True,
+        history.append(["emit", {"type": "FINISHED_EVALUATION", "tval": tval, "src": 0, "path": [0], "has_results": True,
                                  "has_transformed": bool(transformed), "items": items}])
 
-    from ropt.enums import EventType
-    tval = EventType.FINISHED_EVALUATION.value
-    opt = BasicOptimizer(EnOptConfig.model_validate(config, context=transforms),
-                         lambda v, c: evaluate(v, c, counter), transforms=transforms,
-                         constraint_tolerance=case["handlers"][0][1])
+    what, tol, sources, _, flags = _hspec(case["handlers"][0])
+    d_tol = inspect.signature(BasicOptimizer.__init__).parameters["constraint_tolerance"].default
+    kw = {"transforms": transforms, "constraint_tolerance": tol}
+    if "d" in flags and tol == d_tol and tol is not None:
+        del kw["constraint_tolerance"]
+    opt = BasicOptimizer(EnOptConfig.model_validate(config, context=transforms), lambda v, c: evaluate(v, c, counter), **kw)
     opt.set_results_callback(callback, transformed=True)
-    opt.run()
-    for h in history:
-        h[1]["tval"] = tval
-    res = opt.results
-    var_ok = (opt.variables is None) if res is None else (opt.variables is res.evaluations.variables)
-    held = [["unobserved"] * len(history)]
-    if history:
-        held[0][-1] = ident.of(res)
-    return {"history": history, "held": held, "exits": [opt.exit_code.name], "variables_ok": bool(var_ok),
-            "result_without_events": bool(not history and res is not None)}
+    abort = {"k": case.get("abort_after")}
+    if abort["k"] is not None:
+        opt.set_abort_callback(lambda: abort["k"] is not None and counter[0] >= abort["k"])
+    held, exits, var_ok, ghost = [], [], True, False
+    for run in range(int(case.get("runs", 1))):
+        if run > 0:
+            history.append(["put", None])        # BasicOptimizer.run builds a fresh plan: same as a reset tracker
+            held.append("unobserved")
+            counter[0] = 0
+            abort["k"] = None
+        before = len(history)
+        opt.run()
+        res = opt.results
+        var_ok = var_ok and ((opt.variables is None) if res is None else
+                             (opt.variables is not None and np.array_equal(opt.variables, res.evaluations.variables)))
+        held.extend(["unobserved"] * (len(history) - before))
+        if len(history) > before:
+            held[-1] = ident.of(res)
+        elif res is not None:
+            ghost = True
+        exits.append(opt.exit_code.name)
+    return {"history": history, "held": [held], "exits": exits, "variables_ok": bool(var_ok),
+            "result_without_events": bool(ghost), "handlers": [[what, tol, sources, 0]]}
 
 
 def run_impl(case):
@@ -455,6 +759,8 @@ def run_impl(case):
         return _run_syn(case)
     if case["kind"] == "plan":
         return _run_plan(case)
+    if case["kind"] == "nested":
+        return _run_nested(case)
     return _run_basic(case)
 
 
@@ -473,10 +779,19 @@ def _q(x):
     return f"(qd ({n}) {k})" if n < 0 else f"(qd {n} {k})"
 
 
-def _viol_term(v):
+def _viol_term_full(v):
     if v is None:
         return "v0"
     return "(vv " + " ".join("na" if a is None else f"(ar {cq.lst(_q(x) for x in a)})" for a in v) + ")"
+
+
+def _viol_term(v):
+    # the two violation triples of the exhaustive alphabets have names (defined in HEADER by the same printer)
+    if v == _FEAS:
+        return "vF"
+    if v == _INFEAS:
+        return "vI"
+    return _viol_term_full(v)
 
 
 def _facet_term(f):
@@ -500,7 +815,9 @@ def _op_term(op):
     ev = op[1]
     items = cq.lst(f"(itm {int(it['id'])} {_facet_term(it['u'])} {_facet_term(it['t'] if it['t'] is not None else it['u'])})"
                    for it in ev["items"])
-    return f"(evt {int(ev['tval'])} {int(ev['src'])} {cq.b(ev['has_results'])} {cq.b(ev['has_transformed'])} {items})"
+    path = [int(x) for x in ev.get("path", [0])]
+    head = "evt" if path == [0] else f"evp {cq.nats(path)}"
+    return f"({head} {int(ev['tval'])} {int(ev['src'])} {cq.b(ev['has_results'])} {cq.b(ev['has_transformed'])} {items})"
 
 
 def _held_term(h):
@@ -511,9 +828,29 @@ def _held_term(h):
     return f"(hs {int(h)})"
 
 
+def _effective(case, obs):
+    """The trackers' configurations as the driver created them (defaults read from the real signatures)."""
+    if "handlers" in obs:
+        return [tuple(h) for h in obs["handlers"]]
+    return [_hspec(h)[:4] for h in case["handlers"]]
+
+
+def _handlers_term(effective):
+    return cq.lst((f"(cfgc " if pl == 0 else f"(cfgp {int(pl)} ") + f"{'Best' if w == 'best' else 'Last'} {cq.opt(tol, _q)} {cq.nats(ss)})"
+                  for w, tol, ss, pl in effective)
+
+
+_EXH = _handlers_term([(w, tol, ss, 0) for w, tol, ss in EX_HANDLERS])
+# names for the terms every exhaustive case repeats (the Coq side is bound by the size of the literal)
+HEADER = ("From Ropt Require Import Model.Tracker.\n"
+          f"Definition vF := {_viol_term_full(_FEAS)}.\nDefinition vI := {_viol_term_full(_INFEAS)}.\n"
+          f"Definition exh : list Tracker.config := {_EXH}.")
+
+
 def coq_case(case, obs):
-    handlers = cq.lst(f"(cfgc {'Best' if w == 'best' else 'Last'} {cq.opt(tol, _q)} {cq.nats(ss)})"
-                      for w, tol, ss in case["handlers"])
+    handlers = _handlers_term(_effective(case, obs))
+    if handlers == _EXH:
+        handlers = "exh"
     ops = cq.lst(_op_term(op) for op in obs["history"])
     held = cq.lst(cq.lst(_held_term(h) for h in hs) for hs in obs["held"])
     return f"(Build_case {handlers} {ops} {held})"
@@ -527,24 +864,35 @@ def _feasible(f, tol):
 
 
 def oracle(case, obs):
+    """The property text on the observation.  Per tracker: the results delivered so far by a tracked source on the
+    tracker's plan or a plan nested below it; 'best' must hold a feasible function result whose optimizer-domain
+    objective is the lowest of them (any tied one), nothing iff there is none; 'last' the most recent feasible one."""
     if case["kind"] == "basic":
         if not obs["variables_ok"]:
             return {"clause": "basic-optimizer-variables-not-of-reported-result", "detail": None}
         if obs["result_without_events"]:
             return {"clause": "basic-optimizer-reports-undelivered-result", "detail": None}
-    for h, (what, tol, sources) in enumerate(case["handlers"]):
+    for h, (what, tol, sources, plan) in enumerate(_effective(case, obs)):
         cands = {}       # id -> optimizer-domain objective (best)
+        known = {}       # id -> optimizer-domain objective of every candidate this tracker was ever shown
+        alt = None       # (id, other possible comparison objective) of an object placed with Plan.set
         seen = {}        # id -> why a delivered result is not a candidate
         last = None
         for k, op in enumerate(obs["history"]):
             if op[0] == "put":
-                cands, last = {}, None
+                cands, last, alt = {}, None, None
                 if op[1] is not None:
-                    cands[op[1]["id"]] = op[1]["u"]["obj"]
-                    last = op[1]["id"]
+                    # Plan.set is outside the property text: the object is compared through its own objective, or --
+                    # when it is the very object the tracker chose last -- through its optimizer-domain partner
+                    pid = op[1]["id"]
+                    cands[pid] = op[1]["u"]["obj"]
+                    if pid in known:
+                        alt = (pid, known[pid])
+                    last = pid
             else:
                 ev = op[1]
-                tracked = ev["type"] == "FINISHED_EVALUATION" and ev["has_results"] and ev["src"] in sources
+                tracked = (ev["type"] == "FINISHED_EVALUATION" and ev["has_results"] and ev["src"] in sources
+                           and plan in ev.get("path", [0]))
                 for it in ev["items"]:
                     t = it["t"] if ev["has_transformed"] else it["u"]
                     if not tracked:
@@ -559,10 +907,11 @@ def oracle(case, obs):
                             seen[it["id"]] = "nan-objective"
                         else:
                             cands[it["id"]] = t["obj"]
+                            known[it["id"]] = t["obj"]
             got = obs["held"][h][k]
             if got == "unobserved":
                 continue
-            where = {"handler": [what, tol, sources], "after_op": k, "held": got}
+            where = {"handler": [what, tol, sources, plan], "after_op": k, "held": got}
             if what == "last":
                 if got != last:
                     return {"clause": "last-is-not-most-recent-feasible-function-result", "detail": {**where, "expected": last}}
@@ -574,9 +923,11 @@ def oracle(case, obs):
                 return {"clause": "best-blocked-valid-result-not-retained", "detail": {**where, "candidates": len(cands)}}
             elif got not in cands:
                 return {"clause": "best-holds-" + seen.get(got, "unknown-object"), "detail": where}
-            elif cands[got] > min(cands.values()):
-                return {"clause": "best-is-not-lowest-in-optimizer-domain",
-                        "detail": {**where, "held_objective": cands[got], "lowest": min(cands.values())}}
+            else:
+                views = [cands] if alt is None or alt[0] not in cands else [cands, {**cands, alt[0]: alt[1]}]
+                if all(v[got] > min(v.values()) for v in views):
+                    return {"clause": "best-is-not-lowest-in-optimizer-domain",
+                            "detail": {**where, "held_objective": cands[got], "lowest": min(cands.values())}}
     return None
 
 
@@ -586,15 +937,34 @@ def nontrivial(case, obs):
     return n >= 2 and holds
 
 
+def _steps_of(case):
+    if case["kind"] == "nested":
+        return [case["outer"], case["inner"]] + ([case["evaluator"]] if case["evaluator"] is not None else [])
+    return case.get("steps", [])
+
+
 def features(case, obs):
-    items = [it for op in obs["history"] if op[0] == "emit" for it in op[1]["items"]]
+    emits = [op[1] for op in obs["history"] if op[0] == "emit"]
+    items = [it for ev in emits for it in ev["items"]]
     nan = sum(1 for it in items if it["u"]["hasf"] and math.isnan(it["u"]["obj"]))
     n = len(obs["history"])
-    return {"kind": case["kind"], "ops": "1-3" if n <= 3 else "4-12" if n <= 12 else "13-40" if n <= 40 else ">40",
+    steps = _steps_of(case)
+    batch = max((len(ev["items"]) for ev in emits), default=0)
+    mixed = any(len({(it["u"]["isfun"], it["u"]["hasf"] and not math.isnan(it["u"]["obj"])) for it in ev["items"]}) > 1
+                for ev in emits)
+    stream = case["kind"]
+    if stream == "syn":
+        stream = "syn-nested-plans" if case.get("plans", 1) > 1 else "syn"
+    return {"kind": stream, "ops": "1-3" if n <= 3 else "4-12" if n <= 12 else "13-40" if n <= 40 else ">40",
             "transform": case.get("transform", "real"), "nan_results": min(nan, 3),
             "puts": min(2, sum(1 for op in obs["history"] if op[0] == "put")),
             "gradients": min(2, sum(1 for it in items if not it["u"]["isfun"])),
-            "maximize": any(s.get("maximize") for s in case.get("steps", []))}
+            "largest_batch": min(batch, 4), "batch_mixes_valid_and_invalid": mixed,
+            "tolerances": ",".join(sorted({"None" if h[1] is None else "0" if h[1] == 0 else "pos" for h in _effective(case, obs)})),
+            "maximize": any(s.get("maximize") for s in steps),
+            "scaled": any(s.get("oscale", 1.0) != 1.0 or s.get("cscale", 1.0) != 1.0 for s in steps),
+            "methods": ",".join(sorted({("evaluator" if s.get("kind") == "evaluator" else s["method"] + ("/parallel" if s.get("parallel") else ""))
+                                        for s in steps})) or "-"}
 
 
 def known_signature(case, obs, violation):
@@ -610,7 +980,7 @@ def shrink(case):
     for k, op in enumerate(ops):
         if op[0] == "emit" and len(op[5]) > 1:
             for j in range(len(op[5])):
-                yield {**case, "ops": ops[:k] + [op[:5] + [op[5][:j] + op[5][j + 1:]]] + ops[k + 1:]}
+                yield {**case, "ops": ops[:k] + [op[:5] + [op[5][:j] + op[5][j + 1:]] + op[6:]] + ops[k + 1:]}
     if len(case["handlers"]) > 1:
         for k in range(len(case["handlers"])):
             yield {**case, "handlers": [case["handlers"][k]]}
@@ -623,24 +993,32 @@ def search(rng, case):
         yield _rand_history(rng, 8)
     for _ in range(20):
         yield _rand_plan(rng, basic=rng.random() < 0.5)
+    for _ in range(6):
+        yield _rand_nested(rng)
 
 
 MANIFEST = {
     "level_text": ("Machine-checked Coq proof, by induction over arbitrary operation histories, that the executable model of "
-                   "DefaultTrackerHandler / _update_optimal_result / _get_last_result (Model/Tracker.v) holds after any history nothing "
-                   "iff no tracked-source feasible function result with a defined optimizer-domain objective was delivered, and otherwise the "
-                   "first such result whose optimizer-domain weighted objective is minimal (so it is feasible and lowest); that gradient, "
-                   "function-less, NaN, infeasible, other-source and other-event deliveries leave the state unchanged at any position; that "
-                   "a 'last' tracker holds the most recent feasible function result; that under a sign-flipping transform the retained result "
-                   "maximises the user objective; and that the BasicOptimizer plan reports exactly that state.  The model is tied to the code on "
-                   "every run by an in-Coq correspondence over all event histories up to length 2 (quick) / 3 (thorough) over a 22-letter "
-                   "alphabet pushed through real Plan/tracker objects, sampled long histories with resets, and real optimizations."),
+                   "DefaultTrackerHandler / _update_optimal_result / _get_last_result / Plan.emit_event's forwarding to parent plans "
+                   "(Model/Tracker.v) holds after any history nothing iff no feasible function result with a defined optimizer-domain "
+                   "objective was delivered by a tracked source on the tracker's plan or a plan nested below it, and otherwise the first such "
+                   "result whose optimizer-domain weighted objective is minimal (so it is feasible and lowest, and the held objective never "
+                   "rises); that gradient, function-less, NaN, infeasible, other-source, other-event and other-plan deliveries leave the state "
+                   "unchanged at any position; that the grouping of results into events is irrelevant (a batch equals its results delivered one "
+                   "by one, both tracker kinds); that from any handler state (after Plan.set replaced or re-placed the stored result) the held "
+                   "result is kept unless a later candidate is strictly better; that a 'last' tracker holds the most recent feasible function "
+                   "result; that under a sign-flipping transform the retained result maximises the user objective; and that the BasicOptimizer "
+                   "plan reports exactly that state for every constraint_tolerance.  The model is tied to the code on every run by an in-Coq "
+                   "correspondence: exhaustive bounded histories, batches and resume-after-intermediate sequences pushed through real "
+                   "Plan/tracker objects, sampled long histories on chains of nested plans with resets, and real optimizations (SciPy methods "
+                   "incl. parallel differential_evolution, evaluator steps, nested optimizations, BasicOptimizer)."),
     "level_note": ("Trusted: Coq kernel + VM; the Python driver that builds synthetic Results objects, reads back what the tracker can see of "
-                   "them (isinstance, functions, weighted_objective, the three violation arrays) and records object identities; the observers "
-                   "recording real runs.  Ties: the proof shows the model keeps the earliest minimiser, the correspondence accepts any tied "
-                   "minimiser (the property text does not order ties).  Feasibility is judged on the optimizer-domain (transformed) result, as "
-                   "the anchored mechanism does.  NaN violations and Plan.set of results without a finite objective are outside the modelled domain. "
-                   "All theorems print 'Closed under the global context'."),
-    "technique": "Coq proof (fold invariant over arbitrary histories on an executable Gallina model) + in-Coq differential correspondence with real Plan/DefaultTrackerHandler/BasicOptimizer objects",
-    "design_ref": "DESIGN.md section 4, C12",
+                   "them (isinstance, functions, weighted_objective, the three violation arrays) and records object identities and which plans an "
+                   "event passes through; the observers recording real runs.  Ties: the proof shows the model keeps the earliest minimiser, the "
+                   "correspondence accepts any tied minimiser (the property text does not order ties).  Feasibility is judged on the "
+                   "optimizer-domain (transformed) result, as the anchored mechanism does.  NaN violations, infinite objectives and Plan.set of "
+                   "results without a finite objective are outside the modelled domain; Plan.set itself is outside the property text (its "
+                   "modelled effect: C12_put_new / C12_reput_noop / C12_reset).  All 16 theorems print 'Closed under the global context'."),
+    "technique": "Coq proof (fold invariants over arbitrary histories on an executable Gallina model) + in-Coq differential correspondence with real Plan/DefaultTrackerHandler/BasicOptimizer objects (exhaustive bounded + sampled + real SciPy runs)",
+    "design_ref": "DESIGN.md section 4, C12; design_notes/audit_C12.md",
 }
